@@ -15,3 +15,7 @@ import (
 func NewVerifTimingWheel(interval time.Duration, numSlots int, execute Execute, ticker timex.Ticker) (*TimingWheel, error) {
 	return newTimingWheelWithClock(interval, numSlots, execute, ticker)
 }
+
+// VerifRegistered is the number of timers in the wheel's registry (a concurrency-safe map: a
+// timer is entered when it is set and taken out when a tick collects it for execution).
+func (w *TimingWheel) VerifRegistered() int { return w.timers.Size() }
